@@ -22,7 +22,7 @@ class Record:
     __slots__ = ('status', 'trace', 'outcomes', 'decisions', 'steps', 'ticks', 'vtime', 'leftover',
                  'after_done_handles', 'fault_hits', 'max_pending', 'out_of_order', 'digest',
                  'input_after', 'snap_before', 'snap_after', 'sched', 'done_seq', 'exc_reports',
-                 'complete_results', 'results', 'gate_count', 'snaps', 'pending_nodes')
+                 'complete_results', 'results', 'gate_count', 'snaps', 'pending_nodes', 'probes')
 
     def __init__(self):
         for s in self.__slots__:
@@ -73,10 +73,12 @@ def make_chart(case, uuid_seed=0):
     return PipelineChart('verif_model', dag, artifact_store=store, event_managers=ems)
 
 
-def run_case(case: dict, scheduler, set_seed: int = 0, step_cap: int = 60000, keep_snaps=False) -> Record:
+def run_case(case: dict, scheduler, set_seed: int = 0, step_cap: int = 20000, keep_snaps=False) -> Record:
     """mode solo: one run.  sequence: runs one after another on one chart (or fresh charts).
     overlap: all runs started together on one loop."""
-    mat.quiet_logging()
+    probe = mat.probe_logging() if case.get('probe') else None
+    if probe is None:
+        mat.quiet_logging()
     mat.setup_registries(case.get('registry', 'both'))
     sim = Sim(scheduler, step_cap=step_cap, set_rng=random.Random(set_seed))
     rec = Record()
@@ -137,8 +139,11 @@ def run_case(case: dict, scheduler, set_seed: int = 0, step_cap: int = 60000, ke
         rec.complete_results = sim.__dict__.get('complete_results', {})
         rec.snaps = snaps
         rec.digest = sim.digest()
+        rec.probes = probe.counts if probe is not None else None
     finally:
         sim.close()
+        if probe is not None:
+            mat.quiet_logging()
     return rec
 
 
